@@ -33,6 +33,46 @@ type vfWatchL2 struct {
 	armed  bool
 	limit  time.Time
 	late   bool
+	held   map[string]sop.UUID // lock keys granted and not yet released, by owner
+}
+
+func (c *vfWatchL2) note(ok bool, lk []*sop.LockKey) {
+	if !ok {
+		return
+	}
+	if c.held == nil {
+		c.held = map[string]sop.UUID{}
+	}
+	for _, k := range lk {
+		c.held[k.Key] = k.LockID
+	}
+}
+func (c *vfWatchL2) Unlock(ctx context.Context, lk []*sop.LockKey) error {
+	for _, k := range lk {
+		if id, ok := c.held[k.Key]; ok && id == k.LockID {
+			delete(c.held, k.Key)
+		}
+	}
+	return c.L2Cache.Unlock(ctx, lk)
+}
+
+// snapshot copies the table of granted keys; newSince counts the keys granted after the
+// snapshot was taken that are still held.
+func (c *vfWatchL2) snapshot() map[string]sop.UUID {
+	m := map[string]sop.UUID{}
+	for k, v := range c.held {
+		m[k] = v
+	}
+	return m
+}
+func (c *vfWatchL2) newSince(snap map[string]sop.UUID) int {
+	n := 0
+	for k, o := range c.held {
+		if so, ok := snap[k]; !ok || so != o {
+			n++
+		}
+	}
+	return n
 }
 
 func (c *vfWatchL2) check() {
@@ -43,11 +83,15 @@ func (c *vfWatchL2) check() {
 }
 func (c *vfWatchL2) Lock(ctx context.Context, d time.Duration, lk []*sop.LockKey) (bool, sop.UUID, error) {
 	c.check()
-	return c.L2Cache.Lock(ctx, d, lk)
+	ok, id, err := c.L2Cache.Lock(ctx, d, lk)
+	c.note(ok, lk)
+	return ok, id, err
 }
 func (c *vfWatchL2) DualLock(ctx context.Context, d time.Duration, lk []*sop.LockKey) (bool, sop.UUID, error) {
 	c.check()
-	return c.L2Cache.DualLock(ctx, d, lk)
+	ok, id, err := c.L2Cache.DualLock(ctx, d, lk)
+	c.note(ok, lk)
+	return ok, id, err
 }
 
 // The overhead allowed on top of the budget: the retry loop tests the budget at the top of
@@ -105,11 +149,17 @@ func VerifC15Budget() {
 	start := sop.Now()
 	wl2.limit = start.Add(budget + vfC15Overhead)
 	wl2.armed = true
+	snap := wl2.snapshot() // the stalled holder's keys
 	var cerr error
 	crashed := zzvf.CatchCrash(func() { cerr = wr.Commit(ctx) })
 	wl2.armed = false
 	zzvf.Assert(!crashed, "commit-stops-retrying-once-its-budget-is-used-up")
 	if crashed {
+		return
+	}
+	// node lock keys: whatever the outcome, none of the writer's may stay in the lock table
+	zzvf.Assert(wl2.newSince(snap) == 0, "writer-holds-no-node-lock-after-commit-returned")
+	if wl2.newSince(snap) != 0 {
 		return
 	}
 	took := sop.Now().Sub(start)
@@ -130,6 +180,94 @@ func VerifC15Budget() {
 	zzvf.Assert(ok && err == nil, "follow-up-update")
 	fstart := sop.Now()
 	zzvf.Assert(f.Commit(bg) == nil, "follow-up-commits")
-	zzvf.Assert(sop.Now().Sub(fstart) < 20*time.Millisecond, "follow-up-does-not-wait-for-leftover-locks")
+	// model time is exact (only sleeps and clock reads advance it); natively the same commit costs
+	// real CPU time, so the native bound only has to separate "no retry sleep" from a blocked commit
+	noWait := 20 * time.Millisecond
+	if !zzvf.Symbolic() {
+		noWait = 1500 * time.Millisecond
+	}
+	zzvf.Assert(sop.Now().Sub(fstart) < noWait, "follow-up-does-not-wait-for-leftover-locks")
 	zzvf.Reach("c15-end")
+}
+
+// VerifC15GiveUpAfterAcquire: the writer under test gets its node lock keys only after a
+// dead holder's lock has expired (its remaining life is a solver variable, shorter than the
+// writer's budget), then finds that another transaction changed its item meanwhile and gives up.
+// It must return within its budget and leave no node lock key behind; a follow-up writer on
+// the same node commits.
+func VerifC15GiveUpAfterAcquire() {
+	bg := context.Background()
+	w := vfNewWorld()
+	wl2 := &vfWatchL2{L2Cache: cache.NewL2InMemoryCache()}
+	w.l2 = wl2
+	slot := 2 + 2*zzvf.Choose("slotLength", 2)
+	t := w.newTx(sop.ForWriting)
+	t.Begin(bg)
+	b1, _ := NewBtree[int, string](bg, vfStoreOptions("s1", slot, true), t, nil)
+	for _, kv := range vfBase1 {
+		b1.Add(bg, kv.k, kv.v)
+	}
+	zzvf.Assert(t.Commit(bg) == nil, "baseline-commit")
+
+	w.maxTime = 600 * time.Millisecond
+	wr := w.newTx(sop.ForWriting) // the writer under test reads and changes item 20 first ...
+	wr.Begin(bg)
+	wb, _ := OpenBtree[int, string](bg, "s1", wr, nil)
+	ok, err := wb.Update(bg, 20, "mine")
+	zzvf.Assert(ok && err == nil, "writer-update")
+
+	w.maxTime = 15 * time.Minute
+	a := w.newTx(sop.ForWriting) // ... then another transaction changes it and commits
+	a.Begin(bg)
+	ab, _ := OpenBtree[int, string](bg, "s1", a, nil)
+	ok, err = ab.Update(bg, 20, "theirs")
+	zzvf.Assert(ok && err == nil && a.Commit(bg) == nil, "other-writer-commits")
+
+	// a dead holder keeps every node's lock key for a while
+	// the remaining life of the dead holder's lock is a solver variable (retry sleeps are one unit
+	// each here: symbolic jitters on top of a symbolic expiry make the queries too hard)
+	ttlMs := zzvf.Int64("deadHolderTtlMs")
+	zzvf.Assume(ttlMs >= 30)
+	zzvf.Assume(ttlMs <= 400)
+	ttl := time.Duration(ttlMs) * time.Millisecond
+	var names []string
+	for lid := range w.registry.lookup {
+		names = append(names, lid.String())
+	}
+	dead := wl2.L2Cache.CreateLockKeys(names)
+	okd, _, _ := wl2.L2Cache.Lock(bg, ttl, dead)
+	zzvf.Assert(okd, "dead-holder-locks")
+
+	snap := wl2.snapshot() // empty: the dead holder's keys were locked behind the wrapper
+	start := sop.Now()
+	budget := 600 * time.Millisecond
+	wl2.limit = start.Add(budget + vfC15Overhead)
+	wl2.armed = true
+	var cerr error
+	crashed := zzvf.CatchCrash(func() { cerr = wr.Commit(bg) })
+	wl2.armed = false
+	zzvf.Assert(!crashed, "commit-stops-retrying-once-its-budget-is-used-up")
+	if crashed {
+		return
+	}
+	zzvf.Assert(cerr != nil, "writer-with-a-stale-item-gives-up")
+	zzvf.Assert(sop.Now().Sub(start) <= budget+vfC15Overhead, "commit-returns-within-budget-plus-overhead")
+	zzvf.Assert(wl2.newSince(snap) == 0, "writer-holds-no-node-lock-after-giving-up")
+	if wl2.newSince(snap) != 0 {
+		return // a follow-up writer would only spin on the leftover keys
+	}
+	// follow-up writer on the same leaf
+	f := w.newTx(sop.ForWriting)
+	f.Begin(bg)
+	fb, _ := OpenBtree[int, string](bg, "s1", f, nil)
+	ok, err = fb.Update(bg, 10, "follow-up")
+	zzvf.Assert(ok && err == nil, "follow-up-update")
+	fstart := sop.Now()
+	zzvf.Assert(f.Commit(bg) == nil, "follow-up-commits")
+	noWait := 20 * time.Millisecond
+	if !zzvf.Symbolic() {
+		noWait = 1500 * time.Millisecond
+	}
+	zzvf.Assert(sop.Now().Sub(fstart) < noWait, "follow-up-does-not-wait-for-leftover-locks")
+	zzvf.Reach("c15-giveup-end")
 }
